@@ -18,12 +18,20 @@ def worker(chk, pkg, index):
         if pr.gen_rc != 0:
             raise build.HarnessError("yardl rejected a packed package %s: %s" % (pkg.namespace, pr.gen_err[-600:]))
         if pr.cpp is None:
-            chk.extra["packages_not_compiled"] = 1
-            chk.extra["compile_errors"] = ["%s: %s" % (pkg.namespace, list(pr.cpp_errors.values())[0][:400])]
-            chk.exhaustive = False
+            first = list(pr.cpp_errors.values())[0]
+            chk.fail("cpp-does-not-compile/%s" % pkg.namespace, "generated C++ of an accepted package does not compile: %s" % first[:500],
+                     {"namespace": pkg.namespace, "errors": {k: v[:2000] for k, v in pr.cpp_errors.items()}})
             return
         eng = rtengine.Engine(chk, pr, k, max_exec=12 if tier == "quick" else 40, cap=60 if tier == "quick" else 400)
         eng.run(paths_binary=[[("cpp", "b2b", 1)], [("cpp", "b2b", 3)]], paths_json=[[("cpp", "b2n", 1)]])
+        if pkg.namespace.startswith("Buf"):
+            eng.run_custom(rtengine.buffer_executions(pr, quick=(tier == "quick")), [[("cpp", "b2b", 1)], [("cpp", "b2b", 64)], [("cpp", "b2n", 1)]])
+            chk.extra["packages"] = 1
+            chk.extra["protocols"] = len(pr.steps)
+            return
+        if pkg.namespace.startswith("Pat"):
+            pats = [p.name[1:].upper() for p in pkg.protocols]
+            eng.run_custom({"Q" + pt.lower(): shapes.pattern_executions(pt) for pt in pats}, [[("cpp", "b2b", 1)], [("cpp", "b2b", 2)], [("cpp", "b2n", 1)]])
         chk.extra["packages"] = 1
         chk.extra["protocols"] = len(pr.steps)
     finally:
@@ -35,6 +43,8 @@ def main(tier):
     d = 1 if tier == "quick" else 2
     sh = [s for s in shapes.shapes(d, tier) if not shapes.has_vector_of_bool(s)]
     packed = shapes.pack(sh, "Pk")
+    packed.append((shapes.pattern_package(4 if tier == "quick" else 5)[0], []))
+    packed.append((shapes.buffer_package()[0], []))
     chk.extra["shapes"] = len(sh)
     chk.extra["depth"] = d
     chk.extra["k"] = 1 if tier == "quick" else 2
